@@ -67,6 +67,10 @@ CHECKS = {
             "bounded-exhaustive write/read of basis files for every valid basis (exact enumeration of regular bases x nonbasic placements) x names x format x writer branch, and of state files under every configuration with <=1 deviation, on the real reader/writer pair",
             "(1) every stride-th canonical LP of the 2x2 and 3x2 families x {LP in the solver, LP held outside after a presolved solve} x {default names, user names} x cpxFormat x (the basis left by the solve + EVERY regular basis x EVERY admissible nonbasic placement, installed with setBasis - includes boxed columns at upper, fixed variables, nonbasic free columns and nonbasic free rows): writeBasisFile, then readBasisFile into the same object (after clearBasis) and into a new object; all row and column statuses must come back (up to FIXED marking of equal bounds). (2) LP x every configuration with <=1 deviation x {writeStateReal, writeStateRational} x names: loadSettingsFile + readFile + readBasisFile into a new object; every parameter except the objective sense, the LP under the MPS normalisations, the basis statuses, and status/value of the re-solve must agree.",
             "Trusted: dense reference model, status comparison rule. Whether the objective offset travels with the state files and that maximisation is written as minimisation are recorded as observations. One genuine defect (MPS writer throws on free rows) is in known_findings.json; the default-name defect of readBasis was fixed."),
+    "C12": ("exploration", "DESIGN.md section 3 C12",
+            "bounded-exhaustive exploration of the real readers and writers: all numeric literals up to a length bound over a token alphabet through five readers, and complete tiny-LP product families through write -> read round trips, with an independent exact-arithmetic oracle (GMP/MPFR)",
+            "All literals of length <= 6 (thorough: 7) over {+,-,0,1,5,9,.,e,E,/} that match the grammar plus a 595-literal exponent / long-mantissa family, each through ratFromString and through LP and MPS files read in rational and in real mode (objective, coefficient, sides, bounds positions): exact value by mpz/mpq cross-multiplication (non-canonical results reported distinctly), correctly rounded double by MPFR. Complete tiny-LP product families (all column-bound and row types, empty / free / ranged rows, zero objective, up to 3x2, 2x3, 7x2) x {LP,MPS} x {real,rational} x writeZeroObjective x names x integer markers x scaled/unscaled x value maps: the file is re-read into a fresh object and compared by name with the harness's exact model under the documented normalisations only; the dual writer is judged by exact basis enumeration of primal and dual.",
+            "Trusted: GMP/MPFR arithmetic and the harness's model. Bounds are exhaustive but small (digits {0,1,5,9}, names <= 8 characters, objective offset 0). 12 genuine defects are recorded in known_findings.json; dual-MPS writing is limited to the 1x1 family while the null-tolerances defect is open."),
 }
 
 NOT_YET = {}
